@@ -96,7 +96,7 @@ def position_scripts(rnd, reload_mode=False, kinds=None, positions=None):
     serial2 = (serial1 + 1) & 0xffffffff
     unused = [v4[5], v6[5]] + ([ks_use[5]] if ks_use else [])
     pre = []
-    for it, src in ((v4[0], 2), (v4[3], 2), (v6[3], 3), (v4[5], 3)) + (((ks_use[0], 2), (ks_use[3], 3)) if ks_use else ()):
+    for it, src in ((v4[0], 2), (v4[3], 0), (v6[3], 3), (v4[5], 0)) + (((ks_use[0], 0), (ks_use[3], 3)) if ks_use else ()):   # source 0 = no socket (added by the application)
         pre.append(("pre pfx %s %s %d %d %d %d" % (it[1] + (src,))) if it[0] == "p" else ("pre key %d %d %d" % (it[1] + (src,))))
 
     def eod(s, sn):
